@@ -1,0 +1,149 @@
+//go:build verif
+
+package object
+
+// Contracts for the verifier in /verif (comment-only; compiled only with -tags verif).
+
+//@ func (i *Integer) Type() (result Type)
+//@   modifies nothing
+//@   ensures type.int: result == INTEGER
+//@   panics never
+//@ func (i *Integer) True() (result bool)
+//@   modifies nothing
+//@   ensures @C05 true.int: result == (i.Value > 0)
+//@   panics never
+//@ func (i *Integer) Inspect() (result string)
+//@   modifies nothing
+//@   ensures inspect.int: result == sprintf("%d", i.Value)
+//@   panics never
+//@ func (i *Integer) Increase()
+//@   modifies i.Value
+//@   ensures @C15 inc.int: i.Value == wrap64(old(i.Value) + 1)
+//@   panics never
+//@ func (i *Integer) Decrease()
+//@   modifies i.Value
+//@   ensures @C15 dec.int: i.Value == wrap64(old(i.Value) - 1)
+//@   panics never
+//@ func (i *Integer) HashKey() (result HashKey)
+//@   modifies nothing
+//@   ensures @C16 hashkey.int: result.Type == INTEGER && result.Value == wrapu64(i.Value)
+//@   panics never
+
+//@ func (f *Float) Type() (result Type)
+//@   modifies nothing
+//@   ensures type.float: result == FLOAT
+//@   panics never
+//@ func (f *Float) True() (result bool)
+//@   modifies nothing
+//@   ensures @C05 true.float: result == (f.Value > float(0))
+//@   panics never
+//@ func (f *Float) Increase()
+//@   modifies f.Value
+//@   ensures @C15 inc.float: f.Value === old(f.Value) + float(1)
+//@   panics never
+//@ func (f *Float) Decrease()
+//@   modifies f.Value
+//@   ensures @C15 dec.float: f.Value === old(f.Value) - float(1)
+//@   panics never
+
+//@ func (s *String) Type() (result Type)
+//@   modifies nothing
+//@   ensures type.string: result == STRING
+//@   panics never
+//@ func (s *String) True() (result bool)
+//@   modifies nothing
+//@   ensures @C05 true.string: result == (s.Value != "")
+//@   panics never
+//@ func (s *String) Inspect() (result string)
+//@   modifies nothing
+//@   ensures inspect.string: result == s.Value
+//@   panics never
+//@ func (s *String) Reset()
+//@   modifies s.offset
+//@   ensures @C02 @C16 reset.string: s.offset == 0
+//@   panics never
+
+//@ func (b *Boolean) Type() (result Type)
+//@   modifies nothing
+//@   ensures type.bool: result == BOOLEAN
+//@   panics never
+//@ func (b *Boolean) True() (result bool)
+//@   modifies nothing
+//@   ensures @C05 true.bool: result == b.Value
+//@   panics never
+//@ func (b *Boolean) Inspect() (result string)
+//@   modifies nothing
+//@   ensures inspect.bool: result == sprintf("%t", b.Value)
+//@   panics never
+
+//@ func (n *Null) Type() (result Type)
+//@   modifies nothing
+//@   ensures type.null: result == NULL
+//@   panics never
+//@ func (n *Null) True() (result bool)
+//@   modifies nothing
+//@   ensures @C05 true.null: result == false
+//@   panics never
+//@ func (n *Null) Inspect() (result string)
+//@   modifies nothing
+//@   ensures inspect.null: result == "null"
+//@   panics never
+
+//@ func (v *Void) Type() (result Type)
+//@   modifies nothing
+//@   ensures type.void: result == VOID
+//@   panics never
+//@ func (v *Void) True() (result bool)
+//@   modifies nothing
+//@   ensures @C05 true.void: result == false
+//@   panics never
+//@ func (v *Void) Inspect() (result string)
+//@   modifies nothing
+//@   ensures inspect.void: result == "void"
+//@   panics never
+
+//@ func (r *Regexp) Type() (result Type)
+//@   modifies nothing
+//@   ensures type.regexp: result == REGEXP
+//@   panics never
+//@ func (r *Regexp) True() (result bool)
+//@   modifies nothing
+//@   ensures @C05 true.regexp: result == (r.Value != "")
+//@   panics never
+//@ func (r *Regexp) Inspect() (result string)
+//@   modifies nothing
+//@   ensures inspect.regexp: result == r.Value
+//@   panics never
+
+//@ func (ao *Array) Type() (result Type)
+//@   modifies nothing
+//@   ensures type.array: result == ARRAY
+//@   panics never
+//@ func (ao *Array) True() (result bool)
+//@   modifies nothing
+//@   ensures @C05 true.array: result == (len(ao.Elements) != 0)
+//@   panics never
+//@ func (ao *Array) Reset()
+//@   modifies ao.offset
+//@   ensures @C02 @C16 reset.array: ao.offset == 0
+//@   panics never
+//@ func (ao *Array) Next() (v Object, k Object, ok bool)
+//@   requires 0 <= ao.offset
+//@   modifies ao.offset
+//@   ensures @C02 @C16 next.array.more: old(ao.offset) < len(ao.Elements) ==> ok && v === ao.Elements[old(ao.offset)]
+//@            && isInt(k) && fresh(k) && ival(k) == old(ao.offset) && ao.offset == old(ao.offset) + 1
+//@   ensures @C02 @C16 next.array.done: old(ao.offset) >= len(ao.Elements) ==> !ok && v == nil && ao.offset == old(ao.offset)
+//@   panics never
+
+//@ func (h *Hash) Type() (result Type)
+//@   modifies nothing
+//@   ensures type.hash: result == HASH
+//@   panics never
+//@ func (h *Hash) True() (result bool)
+//@   modifies nothing
+//@   ensures @C05 true.hash: result == (len(h.Pairs) != 0)
+//@   panics never
+//@ func (h *Hash) Reset()
+//@   modifies h.offset
+//@   ensures @C02 @C16 reset.hash: h.offset == 0
+//@   panics never
